@@ -43,6 +43,40 @@ def reachable(prog, cls, roots):
     return seen
 
 
+def const_value(e):
+    """exact rational value of an expression built from literals with + - * / (None when it contains anything else)"""
+    e = strip(e, casts=True)
+    k = e.get('k')
+    if k == 'float':
+        try:
+            return Fraction(e['sp'].rstrip('fFlL'))
+        except (ValueError, ZeroDivisionError):
+            return None
+    if k == 'int':
+        return Fraction(int(e['v']))
+    if k == 'un' and e['op'] in ('-', '+'):
+        v = const_value(e['e'])
+        return None if v is None else (-v if e['op'] == '-' else v)
+    if k == 'bin' and e['op'] in ('+', '-', '*', '/'):
+        a, b = const_value(e['a']), const_value(e['b'])
+        if a is None or b is None or (e['op'] == '/' and b == 0):
+            return None
+        return {'+': a + b, '-': a - b, '*': a * b, '/': a / b}[e['op']]
+    return None
+
+
+def representable(v, ty):
+    """is the rational v a binary floating-point number of the given type (53 / 24 significant bits)"""
+    bits = 24 if 'float' in ty else 53
+    d = v.denominator
+    if d & (d - 1):
+        return False
+    n = abs(v.numerator)
+    while n and n % 2 == 0:
+        n //= 2
+    return n.bit_length() <= bits
+
+
 def check_function(ctx, f, key, scalar='long double', skip=()):
     """Q1..Q5 on one function body of the long double instantiation"""
     where = f.where
@@ -58,6 +92,16 @@ def check_function(ctx, f, key, scalar='long double', skip=()):
         if k == 'cast':
             if n['ck'] == 'FloatingCast' and n.get('from') in ('long double', 'const long double') and n['t'] in NARROW:
                 q1.append('%s: %s value narrowed to %s (`%s`)' % (n['l'], n['from'], n['t'], show(n['e'])[:50]))
+            if n['ck'] == 'FloatingCast' and n.get('from') in ('double', 'float', 'const double', 'const float') and str(n.get('t', '')).replace('const ', '') == scalar:
+                # a value computed in double and then widened: exact only if the double expression is exactly representable
+                v_ = const_value(n['e'])
+                inner_ = strip(n['e'], casts=True)
+                if inner_.get('k') == 'bin' and inner_['op'] in ('+', '-', '*', '/'):
+                    if v_ is None:
+                        q4.append('%s: `%s` is computed in %s and then widened to %s' % (n['l'], show(n['e'])[:40], n['from'], scalar))
+                    elif not representable(v_, n['from']):
+                        q4.append('%s: `%s` = %s is computed in %s, where it is not exactly representable, and then widened to %s: the %s result carries the rounding error of the narrower type' % (
+                            n['l'], show(n['e'])[:40], v_, n['from'], scalar, scalar))
             if n['ck'] == 'IntegralToFloating':
                 e = strip(n['e'])
                 if e.get('k') == 'bin' and e['op'] == '/' and str(e.get('t')) in ('int', 'unsigned int', 'long', 'unsigned long'):
